@@ -316,8 +316,10 @@ class ShareableThreadLock:
                 self._acquired_by[thread_id] -= 1
                 if not self._acquired_by[thread_id]:
                     del self._acquired_by[thread_id]  # NOTE: GC
-                    if not self._acquired_by:
-                        self._condition.notify_all()
+                    # NOTE: A waiter may itself hold a (reentrant) shared lock, so
+                    # _acquired_by need not be empty for its wait to be over.
+                    # Waiters re-check their own condition.
+                    self._condition.notify_all()
             finally:
                 self._condition.release()
 
